@@ -58,6 +58,11 @@ func mustWorld() *World {
 	}
 	w.ComputeMods()
 	w.ConcreteTypes()
+	if len(w.ImmutableViolations) > 0 {
+		fmt.Fprintln(os.Stderr, "govc: immutable declaration contradicted by the code:", strings.Join(w.ImmutableViolations, "; "))
+		cleanupScratch()
+		os.Exit(2)
+	}
 	if os.Getenv("GOVC_VERBOSE") != "" {
 		fmt.Fprintf(os.Stderr, "loaded in %v: %d functions, %d contracts (%d unbound)\n", time.Since(t0), len(w.AllFns), len(w.Contracts.ByKey), len(w.Contracts.Unbound))
 	}
@@ -85,6 +90,7 @@ func cmdFn(args []string) {
 	dump := fs.String("dump", "", "write queries whose id matches this regexp to ./dump/")
 	only := fs.String("only", "", "only obligations whose id matches")
 	showAll := fs.Bool("v", false, "print discharged obligations too")
+	doReplay := fs.Bool("replay", false, "replay sat SAFE obligations on the real code")
 	fs.Parse(args)
 	w := mustWorld()
 	re := regexp.MustCompile(fs.Arg(0))
@@ -128,6 +134,14 @@ func cmdFn(args []string) {
 			fmt.Printf("%-8s %-7s %5dms %s  [%s]\n", o.Status, o.Solver, o.Ms, o.ID, o.Pos)
 			if o.Status == "error" {
 				fmt.Println("     ", o.Model)
+			}
+			if *doReplay && o.Status == "sat" && o.Expect != "sat" {
+				rr := tryReplay(w, o)
+				fmt.Printf("      replay: reproduced=%v %s\n", rr.Reproduced, rr.Detail)
+				if os.Getenv("GOVC_VERBOSE") != "" {
+					fmt.Println(rr.TestSource)
+					fmt.Println(rr.Output)
+				}
 			}
 		}
 		if *dump != "" && regexp.MustCompile(*dump).MatchString(o.ID) {
